@@ -115,7 +115,8 @@ func Load(root string) (*Prog, error) {
 			return nil, fmt.Errorf("expected module package %s did not load", want)
 		}
 	}
-	prog, _ := ssautil.AllPackages(pkgs, ssa.BuilderMode(0))
+	// generic helpers are analysed per instantiation (each instance has a concrete body)
+	prog, _ := ssautil.AllPackages(pkgs, ssa.InstantiateGenerics)
 	prog.Build()
 	p.SSA = prog
 	for _, path := range modulePkgs {
@@ -172,6 +173,25 @@ func Load(root string) (*Prog, error) {
 			}
 		}
 	}
+	// instances of generic module functions (and their closures); the generic bodies
+	// themselves (types still parameters) are never executed and are left out
+	for fn := range ssautil.AllFunctions(prog) {
+		if o := fn.Origin(); o != nil && o != fn {
+			add(fn)
+		}
+	}
+	var concrete []*ssa.Function
+	for _, fn := range p.Funcs {
+		top := fn
+		for top.Parent() != nil {
+			top = top.Parent()
+		}
+		if top.TypeParams().Len() > 0 && len(top.TypeArgs()) == 0 {
+			continue
+		}
+		concrete = append(concrete, fn)
+	}
+	p.Funcs = concrete
 	sort.Slice(p.Funcs, func(i, j int) bool { return p.Funcs[i].String() < p.Funcs[j].String() })
 	if p.Control != nil {
 		p.ControlSSA = prog.Package(p.Control.Types)
@@ -206,11 +226,15 @@ func Load(root string) (*Prog, error) {
 			sort.Slice(p.ControlFuncs, func(i, j int) bool { return p.ControlFuncs[i].String() < p.ControlFuncs[j].String() })
 		}
 	}
+	curProg = p
 	return p, nil
 }
 
 // inModuleCode reports whether fn's source is in a non-generated file of a module package.
 func (p *Prog) inModuleCode(fn *ssa.Function) bool {
+	if o := fn.Origin(); o != nil && o != fn {
+		return p.inModuleCode(o) // instance of a generic module function
+	}
 	if fn.Pkg == nil && fn.Parent() != nil {
 		return p.inModuleCode(fn.Parent())
 	}
